@@ -361,6 +361,7 @@ struct Stats {
     filter_calls: usize, // select_state.receiving was set by a step
     max_slots: usize,
     orphan_slots: usize,
+    orphan_spawn: usize, // of which: first seen right after a spawn_process with a non-empty heap bundle (F46)
     f9_hits: usize,
     result_overwrite_hits: usize,
     repl_ops: usize,
@@ -381,7 +382,7 @@ struct Suspects {
     res_over: Vec<Value>, // Ok results that the operation may have overwritten by an error
 }
 
-fn oracle(ex: &Ex, or: &mut Oracle, sus: &Suspects, st: &mut Stats) -> Result<(), String> {
+fn oracle(ex: &Ex, or: &mut Oracle, sus: &Suspects, st: &mut Stats, after_spawn: bool) -> Result<(), String> {
     let d = ex.verif_dump();
     let reach = ex.reachable_heap_indices();
     let mut roots = BTreeMap::new();
@@ -498,6 +499,9 @@ fn oracle(ex: &Ex, or: &mut Oracle, sus: &Suspects, st: &mut Stats) -> Result<()
     for i in 0..d.refcounts.len() {
         if d.refcounts[i] == 0 && !d.freed[i] && !pf.contains(&i) && or.orphans.insert(i) {
             st.orphan_slots += 1;
+            if after_spawn {
+                st.orphan_spawn += 1;
+            }
         }
     }
     or.orphans.retain(|i| *i < d.refcounts.len() && d.refcounts[*i] == 0 && !d.freed[*i]);
@@ -568,7 +572,7 @@ impl Sim {
     }
     fn check(&mut self, e: usize, sus: &Suspects, what: &str) -> Result<(), String> {
         self.st.ops += 1;
-        oracle(&self.ex[e], &mut self.or[e], sus, &mut self.st).map_err(|m| format!("{} after op#{} {} on executor {}", m, self.st.ops, what, e))
+        oracle(&self.ex[e], &mut self.or[e], sus, &mut self.st, what == "spawn_process").map_err(|m| format!("{} after op#{} {} on executor {}", m, self.st.ops, what, e))
     }
     fn count_transfer(&mut self, heap: &[Vec<u8>], cross: bool) {
         if !heap.is_empty() {
@@ -922,7 +926,7 @@ fn parse_case(line: &str) -> Case {
 
 fn stats_sexp(st: &Stats, extra: &str) -> String {
     format!(
-        "(stats (ops {}) (steps {}) (instructions {}) (processes {}) (transfers {}) (cross {}) (shared {}) (reused {}) (reclaimed {}) (selects {}) (filters {}) (slots {}) (orphans {}) (f9 {}) (resover {}) (repl {}){})",
+        "(stats (ops {}) (steps {}) (instructions {}) (processes {}) (transfers {}) (cross {}) (shared {}) (reused {}) (reclaimed {}) (selects {}) (filters {}) (slots {}) (orphans {}) (orphans-spawn {}) (f9 {}) (resover {}) (repl {}){})",
         st.ops,
         st.steps,
         st.instructions,
@@ -936,6 +940,7 @@ fn stats_sexp(st: &Stats, extra: &str) -> String {
         st.filter_calls,
         st.max_slots,
         st.orphan_slots,
+        st.orphan_spawn,
         st.f9_hits,
         st.result_overwrite_hits,
         st.repl_ops,
@@ -1125,8 +1130,224 @@ fn main() {
 }
 
 mod envmode {
+    //! Oracle-only mode on the real `Environment` + `Worker`s (+ the real `Repl` for several
+    //! `(src ..)` lines): worker.rs handle_action / CompactLocals / GetResult keep-set and repl.rs
+    //! run unmodified; the oracle reads `Worker::verif_executor()` after every worker step.
     use super::*;
-    pub fn run_env(_c: &Case) -> String {
-        "(res compile (detail \"env mode not built\") (stats))\t(trace)".into()
+    use quiver_compiler::PackageResolver;
+    use quiver_core::effects::{EffectBackend, EffectResult, ResultTupleInfo};
+    use quiver_core::value::ResourceId;
+    use quiver_environment::{
+        Command, CommandReceiver, Environment, EnvironmentError, Event, EventSender, Repl, RequestResult,
+        Worker, WorkerHandle,
+    };
+    use std::sync::{Arc, Mutex};
+
+    type Q<T> = Arc<Mutex<VecDeque<T>>>;
+    struct Rx(Q<Command<TestEffect>>);
+    struct Tx(Q<Event<TestEffect>>);
+    struct Handle {
+        cmd: Q<Command<TestEffect>>,
+        evt: Q<Event<TestEffect>>,
+    }
+    impl CommandReceiver<TestEffect> for Rx {
+        fn try_recv(&mut self) -> Result<Option<Command<TestEffect>>, EnvironmentError> {
+            Ok(self.0.lock().unwrap().pop_front())
+        }
+    }
+    impl EventSender<TestEffect> for Tx {
+        fn send(&mut self, event: Event<TestEffect>) -> Result<(), EnvironmentError> {
+            self.0.lock().unwrap().push_back(event);
+            Ok(())
+        }
+    }
+    impl WorkerHandle<TestEffect> for Handle {
+        fn send(&mut self, command: Command<TestEffect>) -> Result<(), EnvironmentError> {
+            self.cmd.lock().unwrap().push_back(command);
+            Ok(())
+        }
+        fn try_recv(&mut self) -> Result<Option<Event<TestEffect>>, EnvironmentError> {
+            Ok(self.evt.lock().unwrap().pop_front())
+        }
+    }
+    struct Backend;
+    impl EffectBackend for Backend {
+        type E = TestEffect;
+        fn execute(&mut self, _pid: ProcessId, _effect: TestEffect) -> Result<Option<EffectResult>, Error> {
+            Ok(Some(Ok((Value::ok(), vec![]))))
+        }
+        fn process_completions(&mut self) -> Vec<(ProcessId, EffectResult)> {
+            vec![]
+        }
+        fn close_resource(&mut self, _resource_id: ResourceId) {}
+        fn set_type_ids(&mut self, _resources: &[String], _results: &[(String, ResultTupleInfo)]) {}
+    }
+
+    struct ESim {
+        workers: Vec<Worker<TestEffect, Rx, Tx>>,
+        env: Environment<TestEffect>,
+        or: Vec<Oracle>,
+        st: Stats,
+        now: u64,
+        sched: Vec<usize>,
+        cur: usize,
+    }
+
+    impl ESim {
+        /// one tick: the schedule picks a worker step or an environment step
+        fn tick(&mut self) -> Result<bool, String> {
+            let n = self.workers.len() + 1;
+            let pick = self.sched[self.cur % self.sched.len()] % n;
+            self.cur += 1;
+            if pick == n - 1 {
+                return self.env.step().map_err(|e| format!("ENV {:?}", e));
+            }
+            // suspects: any process of this worker (we cannot see which one will run)
+            let mut sus = Suspects::default();
+            {
+                let ex = self.workers[pick].verif_executor();
+                for pid in &ex.verif_dump().process_ids {
+                    if let Some(p) = ex.get_process(*pid) {
+                        for v in p.awaiting.values().flatten() {
+                            if has_refs(v) {
+                                sus.f9.push(v.clone());
+                            }
+                        }
+                        if let Some(s) = &p.select_state
+                            && let Some((_, v)) = &s.receiving
+                            && has_refs(v)
+                        {
+                            sus.f9.push(v.clone());
+                        }
+                        if let Some(Ok(v)) = &p.result
+                            && has_refs(v)
+                            && !p.awaiting.is_empty()
+                        {
+                            sus.res_over.push(v.clone());
+                        }
+                    }
+                }
+            }
+            let before_slots = self.workers[pick].verif_executor().verif_dump().refcounts.len();
+            let did = self.workers[pick].step(self.now).map_err(|e| format!("ENV {:?}", e))?;
+            let tr = verif::take_trace();
+            self.st.steps += 1;
+            self.st.instructions += tr.len();
+            self.st.ops += 1;
+            let ex = self.workers[pick].verif_executor();
+            // a spawn command handled in this step may have stranded slots (F46)
+            let grew = ex.verif_dump().refcounts.len() > before_slots;
+            oracle(ex, &mut self.or[pick], &sus, &mut self.st, grew)
+                .map_err(|m| format!("{} after worker step #{} on worker {}", m, self.st.ops, pick))?;
+            Ok(did)
+        }
+        fn wait(&mut self, req: u64, max: usize) -> Result<Option<RequestResult>, String> {
+            let mut idle = 0usize;
+            for _ in 0..max {
+                let did = self.tick()?;
+                if did {
+                    idle = 0;
+                } else {
+                    idle += 1;
+                    if idle > 2 * (self.workers.len() + 1) {
+                        self.now += 1;
+                    }
+                }
+                match self.env.poll_request(req) {
+                    Ok(Some(r)) => return Ok(Some(r)),
+                    Ok(None) => {}
+                    Err(e) => return Err(format!("ENV {:?}", e)),
+                }
+            }
+            Ok(None)
+        }
+    }
+
+    pub fn run_env(c: &Case) -> String {
+        let nworkers = c.workers;
+        let mut workers = Vec::new();
+        let mut handles: Vec<Box<dyn WorkerHandle<TestEffect>>> = Vec::new();
+        for i in 0..nworkers {
+            let cmd: Q<Command<TestEffect>> = Arc::new(Mutex::new(VecDeque::new()));
+            let evt: Q<Event<TestEffect>> = Arc::new(Mutex::new(VecDeque::new()));
+            workers.push(Worker::new(Rx(cmd.clone()), Tx(evt.clone()), qvh::registry(), false, i as u16));
+            handles.push(Box::new(Handle { cmd, evt }));
+        }
+        let mut env = Environment::<TestEffect>::new(handles);
+        env.set_effect_backend(Box::new(Backend));
+        let mut sim = ESim {
+            workers,
+            env,
+            or: (0..nworkers).map(|_| Oracle { shadow: HashMap::new(), ledger: BTreeMap::new(), orphans: HashSet::new() }).collect(),
+            st: Stats::default(),
+            now: 0,
+            sched: c.sched.clone(),
+            cur: 0,
+        };
+        verif::set_quantum(c.quantum);
+        verif::set_tracing(true);
+        let _ = verif::take_trace();
+        let lines = c.src.clone();
+        let max_ops = c.max_ops;
+        let mut status = String::from("ok");
+        let mut detail = String::new();
+        let mut outcomes = vec![];
+        let r = guarded(|| -> Result<(), String> {
+            let resolver = Box::new(PackageResolver::memory(HashMap::new()));
+            let mut repl = Repl::new(&mut sim.env, resolver, qvh::registry()).map_err(|e| format!("ENV repl {}", e))?;
+            for src in &lines {
+                let req = sim.env.request_process_types().map_err(|e| format!("ENV {:?}", e))?;
+                let types = match sim.wait(req, 4000)? {
+                    Some(RequestResult::ProcessTypes(t)) => t,
+                    _ => return Err("ENV process-types".into()),
+                };
+                sim.st.repl_ops += 1;
+                match repl.evaluate(&mut sim.env, src, types) {
+                    Err(e) => {
+                        outcomes.push(format!("compile:{}", format!("{}", e).chars().take(60).collect::<String>()));
+                        continue;
+                    }
+                    Ok(None) => outcomes.push("none".into()),
+                    Ok(Some(req)) => match sim.wait(req, max_ops)? {
+                        None => {
+                            outcomes.push("limit".into());
+                            return Err("LIMIT".into());
+                        }
+                        Some(RequestResult::Result(Ok(_), _)) => outcomes.push("ok".into()),
+                        Some(RequestResult::Result(Err(_), _)) => outcomes.push("err".into()),
+                        Some(_) => outcomes.push("?".into()),
+                    },
+                }
+            }
+            // drain: let every worker reach a quiescent point a few more times
+            for _ in 0..(6 * (sim.workers.len() + 1)) {
+                sim.tick()?;
+            }
+            Ok(())
+        });
+        match r {
+            Ok(Ok(())) => {}
+            Ok(Err(m)) if m == "LIMIT" => status = "limit".into(),
+            Ok(Err(m)) if m.starts_with("ENV") => {
+                status = "enverror".into();
+                detail = m;
+            }
+            Ok(Err(m)) => {
+                status = "oracle".into();
+                detail = m;
+            }
+            Err(loc) => {
+                status = "panic".into();
+                detail = format!("{} {}", loc, PANIC_MSG.with(|m| m.borrow().clone()));
+            }
+        }
+        let ledger_open = sim.or.iter().any(|o| o.ledger.values().any(|v| *v != 0));
+        let extra = format!(
+            " (main {}) (ledger {}) (sus-f9 0) (sus-resover 0) (lines {})",
+            outcomes.last().cloned().unwrap_or_default().split(':').next().unwrap_or("none"),
+            if ledger_open { 1 } else { 0 },
+            outcomes.iter().filter(|o| *o == "ok").count()
+        );
+        format!("(res {} (detail {}) {})\t(trace)", status, sexp::quote(&detail), stats_sexp(&sim.st, &extra))
     }
 }
